@@ -3,6 +3,7 @@ import collections
 import copy
 import json
 import os
+import random
 import re
 import subprocess
 import time
@@ -13,6 +14,8 @@ import vlib
 PID = "C19"
 HINT = ("on this input the implementation behaves like the model without the checks (Guards.original), i.e. like "
         "the code before fixes/C19-1.patch, C19-2.patch, C19-3.patch")
+HINT_PTR = ("on this input the implementation behaves like the model of a load that decodes the document into a pointer "
+            "(loadCreds false): a null document is accepted as 'no credentials at all' (c19_redis_credentials_never_panic_iff)")
 NOISE = ("detail", "detail0", "stack", "why", "confirmed_alone", "head")
 ENV = None
 
@@ -106,11 +109,21 @@ def outcome_of(case, i):
         return "crash"
     if not isinstance(i, dict):
         return "?"
+    if case["op"] == "creds":
+        if i.get("start") != "ok":
+            return "start:" + str(i.get("start"))
+        if "panic" in i.get("states", []):
+            return "panic"
+        return (i.get("reloads") or ["ok"])[-1] if case.get("mode") != "watch" else (
+            "alive" if i.get("alive") else "dead")
+    if case["op"] == "rulehist":
+        outs = i.get("outcomes", [])
+        return "panic" if "panic" in outs else ("rejected" if "error" in outs else "ok")
     return i.get("reload") or i.get("load") or i.get("cls") or ("alive" if i.get("alive") else "dead")
 
 
 def modelled(case):
-    return case["op"] in ("material", "ruleset", "watch", "provider", "serve") and not case.get("judge_only")
+    return case["op"] in ("material", "ruleset", "watch", "provider", "serve", "creds") and not case.get("judge_only")
 
 
 def nontrivial(case):
@@ -126,6 +139,10 @@ def nontrivial(case):
         return "panic" in case["requests"]
     if op == "remote":
         return case["kind"] != "valid"
+    if op == "creds":
+        return len(case["contents"]) > 1
+    if op == "rulehist":
+        return any(s.get("kind") != "good" for s in case["steps"])
     return op == "raw"
 
 
@@ -139,13 +156,51 @@ def slim(case):
 def judge_cases(cases, impl):
     """the specification's question for every observed reload: before, outcome, after"""
     qs, idx = [], []
+
+    def ask(k, step, before, outcome, after):
+        qs.append({"fam": "loaders", "op": "judge", "before": before, "after": after,
+                   "outcome": outcome if outcome in ("ok", "error", "panic") else "fatal"})
+        idx.append((k, step))
+
     for k, (c, i) in enumerate(zip(cases, impl)):
-        if c["op"] not in ("material", "ruleset") or not isinstance(i, dict) or "reload" not in i:
+        if not isinstance(i, dict):
             continue
-        qs.append({"fam": "loaders", "op": "judge", "before": i.get("state0"), "after": i.get("state1"),
-                   "outcome": i["reload"] if i["reload"] in ("ok", "error", "panic") else "fatal"})
-        idx.append(k)
+        if c["op"] in ("material", "ruleset") and "reload" in i:
+            ask(k, None, i.get("state0"), i["reload"], i.get("state1"))
+        elif c["op"] == "creds" and c.get("mode") != "watch" and "reloads" in i:
+            # one question per reload of the history: what the redis client was handed before and after
+            for n, o in enumerate(i["reloads"]):
+                if n + 1 < len(i.get("states", [])):
+                    ask(k, n, i["states"][n], o, i["states"][n + 1])
+        elif c["op"] == "rulehist" and "outcomes" in i:
+            # one question per step: what the lookups answered before and after
+            for n, o in enumerate(i["outcomes"]):
+                if n + 1 < len(i.get("answers", [])):
+                    ask(k, n, i["answers"][n], o, i["answers"][n + 1])
     return qs, idx
+
+
+def collect_judgements(idx, answers):
+    """{case index: verdict of the specification (old operations) | {step: verdict} (histories)}"""
+    adm = {}
+    for (k, step), a in zip(idx, answers):
+        r = vlib.res_of(a)
+        if step is None:
+            adm[k] = r
+        else:
+            adm.setdefault(k, {})[step] = r
+    return adm
+
+
+def what_class(doc):
+    """a credentials document descriptor in words"""
+    if not isinstance(doc, dict):
+        return "?"
+    if doc.get("kind") == "map":
+        return "mapping with the keys " + ", ".join(repr(f[0]) for f in doc.get("fields", []))
+    return {"none": "no document (empty file, white space, comments)", "malformed": "not YAML",
+            "null": "null document (only '---' so far, 'null', '~')", "scalar": "scalar document",
+            "seq": "sequence document", "exotic": "YAML with aliases / tags / merge keys"}.get(doc.get("kind"), "?")
 
 
 def verdict(case, i, m, admissible):
@@ -158,6 +213,50 @@ def verdict(case, i, m, admissible):
                 "watch": "a file watcher notification", "provider": "a rule file event",
                 "serve": "a request", "remote": "a remote response", "raw": "a request"}[op]
         return f"the process dies on {what}", True, "crash"
+    if op == "creds" and isinstance(i, dict):
+        if i.get("timeout"):
+            return "a change of the credentials file was not handled within 12 s (watcher stopped?)", True, "stopped"
+        if i.get("start") == "panic":
+            return f"reading the credentials file at start panics: {str(i.get('detail'))[:200]}", True, "panic"
+        docs = case.get("docs", [])
+        for n, o in enumerate(i.get("reloads", [])):
+            if o == "panic":
+                return (f"reloading the credentials file panics (content {n + 1}: {what_class(docs[n + 1])}): "
+                        f"{str(i.get('detail'))[:200]}"), True, "panic"
+            if o not in ("ok", "error"):
+                return f"reload {n + 1} of the credentials file neither reported success nor failure: {i}", False, "harness"
+        for n, st in enumerate(i.get("states", [])):
+            if st == "panic":
+                return (f"after the credentials file was read with content {n} ({what_class(docs[n]) if n < len(docs) else '?'}"
+                        f", {json.dumps(case['contents'][n])[:60]}) asking for the credentials (AuthCredentialsFn, "
+                        "called by the redis client on its own goroutines, where nothing recovers) panics: the "
+                        "next (re-)connect ends the process"), True, "panic"
+            if st == "error":
+                return f"asking for the credentials fails after content {n}", True, "state"
+        if isinstance(admissible, dict):
+            for n in sorted(admissible):
+                if admissible[n] is False:
+                    return (f"a rejected reload of the credentials file (content {n + 1}: {what_class(docs[n + 1])}) "
+                            f"changed the credentials in use: before {json.dumps(i['states'][n])}, after "
+                            f"{json.dumps(i['states'][n + 1])}"), True, "state"
+    if op == "rulehist" and isinstance(i, dict):
+        outs, answers = i.get("outcomes", []), i.get("answers", [])
+        for n, o in enumerate(outs):
+            step = case["steps"][n]
+            where = f"step {n + 1} (file {step['file']}: {step.get('kind', '?')})"
+            if o == "panic":
+                return f"a rule file change panics, {where}: {str(i.get('detail'))[:200]}", True, "panic"
+            if o not in ("ok", "error"):
+                return f"{where} could not be carried out: {i}", False, "harness"
+            if n + 1 < len(answers) and "panic" in answers[n + 1] and "panic" not in answers[n]:
+                k = answers[n + 1].index("panic")
+                return (f"after {'the rejected' if o == 'error' else 'the'} rule file change of {where} the lookup "
+                        f"for {case['probes'][k]} panics (answered by {answers[n][k]} before)"), True, "panic"
+            if isinstance(admissible, dict) and admissible.get(n) is False:
+                diff = [f"{p}: {b} -> {a}" for p, b, a in zip(case["probes"], answers[n], answers[n + 1]) if a != b]
+                return (f"a rejected rule file change, {where}, changed what requests are answered with: "
+                        + "; ".join(diff)[:300]), True, "state"
+        return None
     if op in ("material", "ruleset"):
         for phase in ("start", "reload", "load"):
             if i.get(phase) == "panic":
@@ -212,6 +311,11 @@ def like_original(case, i, m):
             and vlib.canon(canon_impl(case, i)) == vlib.canon(m["stats"]["orig"]))
 
 
+def like_pointer(case, i, m):
+    return (case["op"] == "creds" and isinstance(m, dict) and "ptr" in m.get("stats", {})
+            and vlib.canon(canon_impl(case, i)) == vlib.canon(m["stats"]["ptr"]))
+
+
 # ---------------------------------------------------------------------------------------------------------------
 # shrinking
 
@@ -250,9 +354,9 @@ def shrink(exe, case, sig):
         i = run_impl(exe, [c])[0]
         m = run_model([c])[0] if modelled(c) else None
         adm = None
-        qs, _ = judge_cases([c], [i])
+        qs, idx = judge_cases([c], [i])
         if qs:
-            adm = vlib.res_of(run_model(qs)[0])
+            adm = collect_judgements(idx, run_model(qs)).get(0)
         v = verdict(c, i, m, adm)
         return v is not None and signature(c, i, v) == sig
 
@@ -294,6 +398,23 @@ def shrink(exe, case, sig):
         elif case["op"] in ("serve", "raw"):
             rq = vlib.ddmin(cur["requests"], lambda rs: fails(dict(cur, requests=rs)))
             cur = dict(cur, requests=rq)
+        elif case["op"] == "creds" and len(cur["contents"]) > 2:
+            def with_items(items):
+                c2 = dict(cur, contents=[cur["contents"][0]] + [t for t, _ in items],
+                          docs=[cur["docs"][0]] + [d for _, d in items])
+                c2.pop("expect_states", None)
+                return c2
+            items = list(zip(cur["contents"][1:], cur["docs"][1:]))
+            cur = with_items(vlib.ddmin(items, lambda its: fails(with_items(its))))
+        elif case["op"] == "rulehist" and len(cur["steps"]) > 1:
+            st = vlib.ddmin(cur["steps"], lambda ss: fails(dict(cur, steps=ss)))
+            cur = dict(cur, steps=st)
+            for n, step in enumerate(cur["steps"]):
+                if len(step.get("rules") or []) > 1:
+                    def with_rules(rs, n=n, step=step):
+                        s2 = dict(step, rules=rs, text=G.hist_text(rs, step.get("version_ok", True)))
+                        return dict(cur, steps=cur["steps"][:n] + [s2] + cur["steps"][n + 1:])
+                    cur = with_rules(vlib.ddmin(step["rules"], lambda rs: fails(with_rules(rs))))
     except Exception:   # shrinking is a convenience; the unshrunk case is a valid replay
         return case
     return cur
@@ -362,6 +483,16 @@ def build_cases(R, exe):
     streams["remote truncations"] = G.remote_grid(mat)
     streams["remote random"] = lambda: [G.gen_remote(rng, mat) for _ in range(1500 if quick else 15000)]
     streams["raw requests"] = G.raw_grid() + [G.gen_raw(rng) for _ in range(150 if quick else 2000)]
+    # the later streams draw from a generator of their own (seeded by the run's seed as well), so that the cases of
+    # the streams above are what they were before these were added
+    rng2 = random.Random(R.seed * 7919 + 19)
+    texts = G.creds_texts(rng2, quick)
+    desc = run_impl(exe, [G.creds_describe_request([t for _, t in texts])])[0]
+    if not (isinstance(desc, dict) and len(desc.get("docs", [])) == len(texts)):
+        raise RuntimeError("harness cannot describe the credentials documents: " + json.dumps(desc)[:300])
+    described = [(label, t, d) for (label, t), d in zip(texts, desc["docs"])]
+    streams["redis credentials file"] = G.creds_cases(rng2, described, quick)
+    streams["rule file histories"] = lambda: G.hist_grid() + [G.gen_hist(rng2) for _ in range(150 if quick else 4000)]
     return streams, mat
 
 
@@ -424,7 +555,8 @@ def evaluate(R, exe, cases, fill_expectations=True):
     model_of = {}
     for c, m in zip(mcases, run_model(mcases)):
         model_of[id(c)] = m
-        if c["op"] == "watch" and c.get("mode") == "material" and fill_expectations:
+        if ((c["op"] == "watch" and c.get("mode") == "material") or (c["op"] == "creds" and c.get("mode") == "watch")) \
+                and fill_expectations:
             mr = vlib.res_of(m)
             if isinstance(mr, dict) and "states" in mr:
                 c["expect_states"] = mr["states"]
@@ -432,7 +564,7 @@ def evaluate(R, exe, cases, fill_expectations=True):
     retry_starved(exe, cases, impl)
     confirm_crashes(exe, cases, impl)
     qs, idx = judge_cases(cases, impl)
-    adm = {k: vlib.res_of(a) for k, a in zip(idx, run_model(qs))}
+    adm = collect_judgements(idx, run_model(qs))
     return impl, [model_of.get(id(c)) for c in cases], adm
 
 
@@ -456,6 +588,9 @@ def run(R):
     replies = collections.Counter()
     remote = collections.Counter()
     events = collections.Counter()
+    cred_classes = collections.Counter()
+    hist_steps = collections.Counter()
+    hist_kept = 0
     nontriv = set()
     bad = []
     judged = 0
@@ -486,14 +621,29 @@ def run(R):
                     events[f"{c['op']}:{e}"] += 1
             if isinstance(m, dict) and m.get("stats", {}).get("reason"):
                 reasons[m["stats"]["reason"]] += 1
-            if k in adm:
+            if c["op"] == "creds" and isinstance(i, dict):
+                outs = i.get("reloads") or []
+                for n, d in enumerate(c["docs"][1:]):
+                    cred_classes[f"{d.get('kind')}:{outs[n] if n < len(outs) else c.get('mode')}"] += 1
+                for r in (m or {}).get("stats", {}).get("reasons", []):
+                    if r:
+                        reasons["credentials:" + r] += 1
+            if c["op"] == "rulehist" and isinstance(i, dict):
+                for n, (o, why) in enumerate(zip(i.get("outcomes", []), i.get("why", []))):
+                    hist_steps[f"{o}:{why}" if why else o] += 1
+                    # a refusal with rules of earlier steps in force: the lookups had something to lose
+                    if o == "error" and any(a not in ("-", "panic") for a in i["answers"][n]):
+                        hist_kept += 1
+            if isinstance(adm.get(k), dict):
+                judged += len(adm[k])
+            elif k in adm:
                 judged += 1
             v = verdict(c, i, m, adm.get(k))
             if v is not None and len(bad) < 4000:
                 bad.append((c, i, m, v))
             if name != "corpus":
                 key = (c["op"], c.get("consumer") or c.get("mech") or c.get("mode") or c.get("server"), o)
-                if key not in seen and len(samples) < 8 and len(json.dumps(c)) < 2500:
+                if key not in seen and len(samples) < 12 and len(json.dumps(c)) < 2500:
                     seen.add(key)
                     samples.append({"case": slim(c), "implementation": strip(i),
                                     "model": vlib.res_of(m) if m else None})
@@ -507,20 +657,31 @@ def run(R):
                 "and changed under the real file_system provider, parser, processor, factory and repository; a script "
                 "of notifications for the real watcher / provider goroutines; requests for the real decision and "
                 "Envoy gRPC services; a response served to the real jwt / introspection / generic authenticators, "
-                "remote authorizer, generic contextualizer; raw bytes sent to the real decision service. "
+                "remote authorizer, generic contextualizer; raw bytes sent to the real decision service; a history of "
+                "contents of the redis cache's credentials file (bytes + what generic YAML decoding finds in them) read "
+                "by the real fileCredentials, reloaded directly or by the real watcher, the real AuthCredentialsFn asked "
+                "after each; a history of rule files of three sources under the real provider, processor, factory and "
+                "repository with lookups for the routes of all rules after every step. "
                 "Non-trivial = the file has at least one complete block or is a truncation, the document has at "
                 "least one rule (or is a non-empty damaged text), the script contains a panic or real key material, "
-                "the remote input is not the valid one, any raw request; distinct by hash of the case",
+                "the remote input is not the valid one, any raw request, a credentials history with at least one "
+                "reload, a rule file history with at least one step that is not a well-formed rule set; distinct by "
+                "hash of the case",
         "streams": {n: dict(cnt) for n, cnt in per_stream.items()},
         "model_reasons_for_rejection": dict(reasons), "material_consumer_outcomes": dict(consumers),
         "material_complete_blocks_histogram": {str(k): v for k, v in sorted(blocks_hist.items())},
         "remote_mechanism_kind_outcome": dict(remote), "raw_reply_histogram": dict(replies),
         "scripted_events": dict(events), "reloads_judged_by_specification": judged,
+        "credentials_document_class_and_outcome": dict(cred_classes),
+        "rule_history_steps_by_outcome_and_stage": dict(hist_steps),
+        "rule_history_refusals_with_rules_in_force": hist_kept,
         "corpus_cases": len(corpus), "samples": samples, "exhaustive": False,
         "small_scope": "every named key store scenario x every consumer; every byte prefix of the listed stores x "
                        "every consumer; every confused value x every key of a step the factory reads; every scopes "
                        "shape; every byte prefix of a rule set text, of the signed token and of every valid remote "
-                       "response",
+                       "response; every named class and every byte prefix of five valid credentials files; every kind "
+                       "of refused rule file change (decoding, version, factory, path expression, wildcard names, path "
+                       "of another source) x every source x update (all / one / none of its rules kept) and creation",
     })
     R.assumptions += [
         "x509 path validation, PEM / DER / YAML / JSON / JOSE / CEL parsing are foreign code: the model takes their "
@@ -528,8 +689,15 @@ def run(R):
         "do not panic on arbitrary bytes is searched for (truncation at every offset, byte damage), not proved",
         "chain validation is abstracted to 'every certificate of the chain within its validity period and every "
         "issuer a CA'; exact for the certificates of tools/gen_loaders_pool.json (validated by the correspondence run)",
-        "repository conflicts between rule sets (property C06) do not occur in the generated rule sets: every rule id "
-        "has its own path",
+        "repository conflicts between rule sets (property C06) do not occur in the rule sets of the modelled stream "
+        "`ruleset`: every rule id has its own path; the histories of the stream `rule file histories` contain them, "
+        "whether such a step is refused is observed, not predicted: the specification judges what the lookups answer "
+        "before and after",
+        "the credentials file of the redis cache: YAML syntax is foreign code; the model works on what generic "
+        "decoding (yaml.v3 into yaml.Node, in the harness, nothing of heimdall involved) finds in the bytes; contents "
+        "with aliases, explicit tags, merge keys or non-scalar keys are judged by the specification only",
+        "the goroutines on which the redis client asks for credentials belong to rueidis (not in heimdall's source, no "
+        "entry in Gen/LoaderGuards.lean): the model lets a panic there end the process",
         "goroutine scheduling and fsnotify event delivery are not modelled; the runs against the real watcher / "
         "provider wait for the expected effect (limit 12 s per step)",
         "key material of the pool is generated with crypto/rand once (committed); outcomes do not depend on it",
@@ -537,6 +705,10 @@ def run(R):
 
     report(R, exe, bad)
     R.coverage["disagreements_checked"] = len(bad)
+    if not any(k.startswith("error:insertion") for k in hist_steps) or hist_kept == 0:
+        R.violation("the stream 'rule file histories' no longer contains a change that is refused when its routes are "
+                    "inserted into the routing tree while rules are in force (generator out of date?): "
+                    + json.dumps(dict(hist_steps)), {"steps": dict(hist_steps)}, no_input=True)
     if UNATTRIBUTED:
         R.violation(f"the harness process died {len(UNATTRIBUTED)} time(s) while working on a case that does not "
                     "kill it when run alone (a goroutine of an earlier case?)", {"deaths": UNATTRIBUTED[:5]},
@@ -581,6 +753,10 @@ def signature(c, i, v):
         text = str(i.get("head") or "").replace(" | ", "\n") + "\n" + str(i.get("crash") or i.get("panic") or "")
         mt = re.search(r"^(panic: .*|fatal error: .*)$", text, re.M)
         detail = mt.group(1) if mt else "fatal error: stack overflow"
+    if c["op"] == "rulehist":
+        detail = re.split(r" of step|, step| for ", detail)[0]      # not the step, the file, the probe
+    elif c["op"] == "creds":
+        detail = detail.split("(")[0]
     detail = re.sub(r"[0-9a-f]{8,}|\d+", "#", detail)[:90]
     part = ""
     if kind == "model":
@@ -609,6 +785,8 @@ def report(R, exe, bad):
             head = crash_head(exe, sc)      # the case once more, alone in a fresh process
             what += ": " + head
         hint = HINT if (sm[0] is not None and like_original(sc, si[0], sm[0])) else None
+        if sm[0] is not None and like_pointer(sc, si[0], sm[0]):
+            hint = HINT_PTR
         payload = {"case": slim(sc), "impl": strip(si[0]) if isinstance(si[0], dict) else si[0],
                    "model": vlib.res_of(sm[0]) if sm[0] is not None else "no model: judged by the specification",
                    "kind": {"crash": "impl-vs-spec", "panic": "impl-vs-spec", "state": "impl-vs-spec",
